@@ -17,6 +17,7 @@ struct Sites<'a> {
     unsafe_blocks: usize,
     mut_receivers: Vec<String>,
     mut_returns: Vec<String>,
+    mut_params: Vec<String>,
     fns: Vec<(String, bool)>,
 }
 
@@ -45,6 +46,17 @@ impl<'a> Sites<'a> {
                 }
                 if norm(&r.ty).starts_with("&mut") {
                     self.mut_receivers.push(name.clone());
+                }
+            }
+        }
+        // a parameter giving mutable access to an EXISTING newtype value (`place: &mut Self`, e.g. an
+        // in-place deserializer / clone_from / swap helper): whatever the body does with it, the value can be
+        // changed without passing through the constructor
+        for a in &sig.inputs {
+            if let syn::FnArg::Typed(pt) = a {
+                let t = norm(&pt.ty);
+                if t.contains("&mutSelf") || t.contains(&format!("&mut{}", self.name)) || t.contains(&format!("&'amut{}", self.name)) {
+                    self.mut_params.push(format!("{name}({})", norm(pt)));
                 }
             }
         }
@@ -174,7 +186,7 @@ pub fn check(ts: &TokenStream, name: &str, nu_expected: bool, vis: Vis) -> Vec<(
     if mods != 1 {
         out.push(("generated-module-count".into(), format!("{mods}")));
     }
-    let mut v = Sites { name, fn_stack: vec![], sites: vec![], unsafe_blocks: 0, mut_receivers: vec![], mut_returns: vec![], fns: vec![] };
+    let mut v = Sites { name, fn_stack: vec![], sites: vec![], unsafe_blocks: 0, mut_receivers: vec![], mut_returns: vec![], mut_params: vec![], fns: vec![] };
     v.visit_file(&file);
     for (f, uns, body, site) in &v.sites {
         match f.as_str() {
@@ -226,6 +238,9 @@ pub fn check(ts: &TokenStream, name: &str, nu_expected: bool, vis: Vis) -> Vec<(
     for f in &v.mut_returns {
         out.push(("fn-returns-mut-reference".into(), f.clone()));
     }
+    for f in &v.mut_params {
+        out.push(("fn-takes-mut-newtype".into(), f.clone()));
+    }
     let text = ts.to_string();
     for bad in ["transmute", "zeroed", "MaybeUninit", "from_raw", "ptr :: write", "ptr :: read"] {
         if text.contains(bad) {
@@ -237,7 +252,7 @@ pub fn check(ts: &TokenStream, name: &str, nu_expected: bool, vis: Vis) -> Vec<(
 
 pub fn facts(ts: &TokenStream, name: &str) -> serde_json::Value {
     let Ok(file) = syn::parse2::<syn::File>(ts.clone()) else { return serde_json::json!("unparseable") };
-    let mut v = Sites { name, fn_stack: vec![], sites: vec![], unsafe_blocks: 0, mut_receivers: vec![], mut_returns: vec![], fns: vec![] };
+    let mut v = Sites { name, fn_stack: vec![], sites: vec![], unsafe_blocks: 0, mut_receivers: vec![], mut_returns: vec![], mut_params: vec![], fns: vec![] };
     v.visit_file(&file);
     serde_json::json!({"functions": v.fns.len(), "construction_sites": v.sites.iter().map(|s| format!("{} in {}", s.3, s.0)).collect::<Vec<_>>(), "unsafe_blocks": v.unsafe_blocks})
 }
